@@ -116,6 +116,11 @@ theorem task_execute (as : List ARes) :
   · exact okPrefix_all_ok as
   · exact okPrefix_next_bad as
 
+/-- `Task.execute_teardown` stops at the first unsuccessful teardown action exactly as `Task.execute` does -/
+theorem teardown_execute (as : List ARes) :
+    teardownRun 0 as = ((taskExecute as).outcome, (taskExecute as).ran) :=
+  teardownRun_spec as .none [] 0
+
 /-- the merged values as a dictionary: the last successful action binding `k` wins -/
 theorem task_values_lookup (as : List ARes) (k : Nat) :
     Vals.get (taskExecute as).values k = (okPrefix as).reverse.findSome? (fun a => Vals.get a.values k) := by
